@@ -84,7 +84,15 @@ impl BuildJob<'_> {
     ) -> Result<Pin<Box<dyn Future<Output = i32> + 'a>>, RedoError> {
         let before_t = try_stat(self.t.as_path()).map_err(RedoError::opaque_error)?;
         debug_assert!(self.lock.is_owned());
-        let (is_target, dirty) = (self.should_build_func)(&mut ptx, &self.t)?;
+        let (is_target, dirty) = match (self.should_build_func)(&mut ptx, &self.t) {
+            Ok(verdict) => verdict,
+            Err(e) => match immediate_exit_code(&e) {
+                // e.g. the target already failed during this run: that is the
+                // outcome of this job, not a reason to give up on all the others.
+                Some(rv) => return Ok(Box::pin(future::ready(rv))),
+                None => return Err(e),
+            },
+        };
         match dirty {
             Dirtiness::Clean => {
                 // Target doesn't need to be built; skip the whole task.
@@ -906,6 +914,21 @@ where
     job_futures.fold((), |_, _| future::ready(())).await;
     passes_result?;
     result.replace(Ok(()))
+}
+
+/// Returns the exit code carried by the first [`RedoErrorKind::ImmediateExit`]
+/// in the error's source chain, if any.
+fn immediate_exit_code(e: &RedoError) -> Option<i32> {
+    let mut next: Option<&(dyn std::error::Error + 'static)> = Some(e);
+    while let Some(e) = next {
+        if let Some(&RedoErrorKind::ImmediateExit(rv)) =
+            e.downcast_ref::<RedoError>().map(|e| e.kind())
+        {
+            return Some(rv);
+        }
+        next = e.source();
+    }
+    None
 }
 
 /// Polls a future and a stream, discarding any results from the stream.
